@@ -546,6 +546,7 @@ def ob_p1_selection_native(gridname):
     from bempp_cl.api.space import scalar_spaces as SC
 
     block, contract, params = VR.native_block("contracts.dofmap_blocks", "_p1_selection_block", helpers=("find_index",))
+    numbering, ncontract, _ = VR.native_block("contracts.dofmap_blocks", "_p1_numbering")
     grid = Z.grid_with_domains(gridname)
     doms = sorted(set(int(d) for d in grid.domain_indices))
     steps = 0
@@ -576,6 +577,13 @@ def ob_p1_selection_native(gridname):
                                             % (gridname, segs, ibd, trunc, E, li, t[:120]), witness={"grid": gridname, "segments": segs, "element": E, "local_index": li},
                                             signature="p1-selection/ensures", replay={"confirmed": True})
                     steps += 1
+            # the numbering slice (same text the V-engine proves) on the marker array the selection leaves
+            nres = numbering(state["vertex_is_dof"].copy(), grid.number_of_vertices)
+            nenv = {"vertex_is_dof": state["vertex_is_dof"], "number_of_vertices": grid.number_of_vertices, "result_0": np.asarray(nres[0]).astype(int), "result_1": int(nres[1])}
+            for t in ncontract["requires"] + ncontract["ensures"]:
+                if not VN.evaluate(t, nenv):
+                    return violated("numbering slice of _compute_p1_dof_map violates its contract natively on %s segments=%s: %s" % (gridname, segs, t[:120]),
+                                    witness={"grid": gridname, "segments": segs}, signature="p1-numbering/native", replay={"confirmed": True})
             # the pre-dof table the block leaves is what the real function turns into the dof map: slot carries a dof <=> multiplier 1
             l2g, mult, sup = SC._compute_p1_dof_map(grid.data(), np.asarray(support).copy(), ibd, trunc, vn, ptr)
             if not np.array_equal(np.asarray(mult) != 0, state["local2global"] != -1):
@@ -653,7 +661,7 @@ def main():
     # dof and maps to its number; slot cover (used by C16); frame
     from vlib import vrun as VR
 
-    for blk in ("_p1_selection_block", "_p1_final_block", "_rwg_selection_block", "_rwg_step_block", "_rwg_final_block"):
+    for blk in ("_p1_selection_block", "_p1_numbering", "_p1_final_block", "_rwg_selection_block", "_rwg_step_block", "_rwg_final_block"):
         VR.add_block(run, "contracts.dofmap_blocks", blk)
     for gname in ("screen2", "octa", "two_tets_face") + (("screen3", "cube12") if thorough else ()):
         run.add("_p1_selection_block::native[%s]" % gname, "bounded", ob_p1_selection_native, gname)
@@ -663,6 +671,9 @@ def main():
             [("len(supported_neighbors) == 2", "len(supported_neighbors) >= 2"), ("len(supported_neighbors) == 1 and include_boundary_dofs", "len(supported_neighbors) == 1"),
              ("if not truncate_at_segment_edge", "if truncate_at_segment_edge"), ("if support[e]", "if not support[e]"), ("support[cell] = True", "support[cell] = False"),
              ("edge_dofs[edge_index] != -1", "edge_dofs[edge_index] != 0")])
+    run.add("_p1_numbering::canary", "cover", VR.ob_block_canary, "contracts.dofmap_blocks", "_p1_numbering",
+            [("-_np.ones(number_of_vertices)", "_np.ones(number_of_vertices)"), ("_np.flatnonzero(vertex_is_dof)", "_np.flatnonzero(vertex_is_dof == 0)"),
+             ("_np.arange(global_dof_count)", "_np.ones(global_dof_count)")])
     run.add("_p1_selection_block::canary", "cover", VR.ob_block_canary, "contracts.dofmap_blocks", "_p1_selection_block",
             [("not support[n]", "support[n]"), ("include_boundary_dofs or node_is_interior", "include_boundary_dofs and node_is_interior"),
              ("(not truncate_at_segment_edge) and include_boundary_dofs", "truncate_at_segment_edge and include_boundary_dofs"),
